@@ -154,7 +154,7 @@ func (rg *rootGeneratorPipeline) worker(ctx context.Context, wg *sync.WaitGroup,
 			var (
 				sc      = bufio.NewScanner(strings.NewReader(block))
 				root    *Node
-				nodes   = newStack()
+				nodes   *stack
 				counter = newCounter()
 			)
 			for sc.Scan() {
@@ -169,6 +169,7 @@ func (rg *rootGeneratorPipeline) worker(ctx context.Context, wg *sync.WaitGroup,
 				}
 				if currentNode.isRoot() {
 					root = currentNode
+					nodes = newStack()
 					nodes.push(currentNode)
 					continue
 				}
@@ -183,6 +184,10 @@ func (rg *rootGeneratorPipeline) worker(ctx context.Context, wg *sync.WaitGroup,
 			if err := sc.Err(); err != nil {
 				errc <- err
 				return
+			}
+			if root == nil {
+				// the block holds blank lines only
+				continue
 			}
 			select {
 			case <-ctx.Done():
